@@ -345,8 +345,9 @@ void signed_enum(bool const symbolic_sub, unsigned const nwords)
   }
   using params = params_ns::uniform_int<E>;
   using dist = fcppt::random::distribution::basic<params>;
-  static_assert(std::is_same_v<typename dist::wrapped_distribution, std::uniform_int_distribution<U>>, "the wrapped distribution is over the underlying type");
-  static_assert(std::is_same_v<typename dist::result_type, E>);
+  // run-time assertions on purpose: a changed wrapped type must be reported as a violation, not as a kernel that no longer compiles
+  verif_assert(std::is_same_v<typename dist::wrapped_distribution, std::uniform_int_distribution<U>>, "uniform_int<Enum>: the wrapped distribution is over the underlying type of the enum");
+  verif_assert(std::is_same_v<typename dist::result_type, E>, "uniform_int<Enum>: the result type is the enum");
   params const p{typename params::min{static_cast<E>(a)}, typename params::max{static_cast<E>(b)}};
   dist const d0{p};
   verif_assert(d0.distribution().a() == a && d0.distribution().b() == b, "uniform_int<Enum>: the wrapped distribution holds exactly (underlying(min), underlying(max))");
